@@ -38,7 +38,8 @@ RETS = ["R1", "R2", "R3", "R4"]
 CLEAN, VIA_ANY, FAIL = "Clean", "ViaAny", "Fail"
 
 PRELUDE = """from types import EllipsisType
-from typing import overload, Any, Union, Optional
+from typing import overload, Any, Union, Optional, Generic, TypeVar
+T = TypeVar("T")
 from typing_extensions import reveal_type
 class A: pass
 class B(A): pass
@@ -109,20 +110,61 @@ def render_params(params):
     return ", ".join(out)
 
 
-def render_overloads(fname, overloads):
+# receiver of the overloaded callable (round 5): "func" = module-level function f(...);
+# "method" = inst.m(...) on a plain class; "generic" = inst.m(...) with inst: K[X] for class K(Generic[T]) whose
+# overloads mix T-free parameters and parameters annotated T; "getitem" = inst[a]; "call" = inst(...)
+METHOD_NAME = {"method": "m", "generic": "m", "getitem": "__getitem__", "call": "__call__"}
+
+
+def recv_kind(case):
+    return (case.get("recv") or {}).get("kind", "func")
+
+
+def render_overloads(fname, overloads, recv=None):
+    kind = (recv or {}).get("kind", "func")
     lines = []
+    if kind == "func":
+        ind, name, self_ = "", fname, ""
+    else:
+        lines.append(f"class K{fname}(Generic[T]):" if kind == "generic" else f"class K{fname}:")
+        ind, name, self_ = "    ", METHOD_NAME[kind], "self"
     for ov in overloads:
-        lines.append("@overload")
+        lines.append(ind + "@overload")
         ign = "  # static analysis: ignore[incompatible_default]" if any(p.get("default") in ("none", "lita") for p in ov["params"]) else ""
-        lines.append(f"def {fname}({render_params(ov['params'])}) -> {ov['ret']}: ...{ign}")
-    lines.append(f"def {fname}(*args, **kwargs): raise NotImplementedError")
+        ps = render_params(ov["params"])
+        ps = ", ".join(x for x in (self_, ps) if x)
+        lines.append(ind + f"def {name}({ps}) -> {ov['ret']}: ...{ign}")
+    star = ", ".join(x for x in (self_, "*args", "**kwargs") if x)
+    lines.append(ind + f"def {name}({star}): raise NotImplementedError")
     return lines
 
 
-def render_call(fname, tname, call):
+def subst_overloads(case):
+    """the overloads as the call sees them: T replaced by the receiver's type argument"""
+    recv = case.get("recv") or {}
+    if recv.get("kind") != "generic":
+        return case["overloads"]
+    x = recv["targ"]
+
+    def st(t):
+        if t is None:
+            return None
+        if isinstance(t, str):
+            return x if t == "T" else t
+        return ["U", [x if m == "T" else m for m in t[1]]]
+
+    return [{"params": [dict(p, ann=st(p["ann"])) for p in ov["params"]], "ret": ov["ret"]} for ov in case["overloads"]]
+
+
+def render_call(fname, tname, call, recv=None):
     """one test function per call; returns (lines, line offset of the reveal_type call)"""
+    kind = (recv or {}).get("kind", "func")
     ps = []
     args = []
+    if kind == "generic":
+        ps.append(f"inst: K{fname}[{render_type(recv['targ'])}]")
+    elif kind != "func":
+        ps.append(f"inst: K{fname}")
     for i, t in enumerate(call["pos"]):
         if isinstance(t, str) and t in LITERAL_SRC:
             args.append(LITERAL_SRC[t])  # the literal itself is passed
@@ -141,7 +183,15 @@ def render_call(fname, tname, call):
     if call.get("dstar") is not None:
         ps.append(f"d: dict[str, {render_type(call['dstar'])}]")
         args.append("**d")
-    return [f"def {tname}({', '.join(ps)}):", f"    reveal_type({fname}({', '.join(args)}))"]
+    if kind == "func":
+        expr = f"{fname}({', '.join(args)})"
+    elif kind == "getitem":
+        expr = f"inst[{', '.join(args)}]"
+    elif kind == "call":
+        expr = f"inst({', '.join(args)})"
+    else:
+        expr = f"inst.m({', '.join(args)})"
+    return [f"def {tname}({', '.join(ps)}):", f"    reveal_type({expr})"]
 
 
 def render_module(cases):
@@ -149,9 +199,9 @@ def render_module(cases):
     lines = PRELUDE.splitlines()
     where = {}
     for ci, case in enumerate(cases):
-        lines += render_overloads(f"f{ci}", case["overloads"])
+        lines += render_overloads(f"f{ci}", case["overloads"], case.get("recv"))
         for ki, call in enumerate(case["calls"]):
-            lines += render_call(f"f{ci}", f"t{ci}_{ki}", call)
+            lines += render_call(f"f{ci}", f"t{ci}_{ki}", call, case.get("recv"))
             where[(ci, ki)] = len(lines)
     return "\n".join(lines) + "\n", where
 
@@ -234,7 +284,8 @@ def impl_primitives(cases):
     name = f"c08mod_{_MODCOUNT[0]}"
     lines = PRELUDE.splitlines()
     for ci, case in enumerate(cases):
-        lines += render_overloads(f"f{ci}", case["overloads"])
+        if recv_kind(case) == "func":
+            lines += render_overloads(f"f{ci}", case["overloads"])
     mod = types.ModuleType(name)
     sys.modules[name] = mod
     try:
@@ -273,6 +324,10 @@ def impl_primitives(cases):
 
         result = {}
         for ci, case in enumerate(cases):
+            if recv_kind(case) != "func":
+                # overloaded method reached through a receiver: decided by the oracle only (no model instantiation)
+                result[ci] = {"error": "receiver " + recv_kind(case)}
+                continue
             sig = checker.arg_spec_cache.get_argspec(getattr(mod, f"f{ci}"))
             if not isinstance(sig, OverloadedSignature) or len(sig.signatures) != len(case["overloads"]):
                 result[ci] = {"error": f"not an OverloadedSignature with {len(case['overloads'])} signatures: {sig}"}
@@ -751,7 +806,31 @@ def gen_case(rng, ncalls):
     family = rng.choice(["same", "same", "same", "arity", "arity", "kinds", "variadic"])
     nov = rng.choice([2, 2, 3, 3, 4])
     arity = rng.choice([1, 1, 2, 2, 2, 3])
+    recv = None
+    if rng.random() < 0.22:
+        kind = rng.choice(["generic", "generic", "generic", "method", "getitem", "call"])
+        recv = {"kind": kind, "targ": rng.choice(["int", "str", "A"]) if kind == "generic" else None}
+        if family == "variadic":
+            family = "same"
+        if kind == "getitem":
+            family, arity = "same", 1
     overloads = [gen_overload(rng, arity, family, i) for i in range(nov)]
+    if recv is not None:
+        for ov in overloads:  # no *args / **kw parameters behind a receiver (their finding needs the model)
+            ov["params"] = [dict(p, kind="pk" if p["kind"] == "po" else p["kind"]) for p in ov["params"] if p["kind"] not in ("va", "vk")]
+        if recv["kind"] == "getitem":
+            for ov in overloads:
+                ov["params"] = [dict(p, kind="pk", default=False) for p in ov["params"][:1]] or [{"name": "x", "kind": "pk", "ann": gen_param_type(rng), "default": False}]
+        if recv["kind"] == "generic":
+            # a mixed overload set: at least one overload independent of T and at least one using it
+            idx = [i for i, ov in enumerate(overloads) if ov["params"]]
+            if len(idx) >= 1:
+                use = rng.sample(idx, max(1, min(len(idx), nov - 1, rng.choice([1, 1, 2]))))
+                if len(use) == nov:
+                    use = use[:-1]
+                for i in use:
+                    p = rng.choice(overloads[i]["params"])
+                    p["ann"] = "T" if rng.random() < 0.7 else ["U", ["T", "None"]]
     if rng.random() < 0.25 and nov >= 2:
         # shadowed overload: a later overload repeats an earlier one's parameters
         i = rng.randrange(nov - 1)
@@ -762,13 +841,20 @@ def gen_case(rng, ncalls):
     tries = 0
     while len(calls) < ncalls and tries < ncalls * 6:
         tries += 1
-        c = gen_call(rng, overloads, rng.choice(MODES))
+        mode = rng.choice(MODES)
+        if recv is not None and mode in ("star", "dstar"):
+            continue
+        c = gen_call(rng, subst_overloads({"overloads": overloads, "recv": recv}), mode)
+        if recv is not None and recv["kind"] == "getitem":
+            if not c["pos"]:
+                continue
+            c = {"pos": c["pos"][:1], "kw": [], "star": None, "dstar": None}
         k = json.dumps(c, sort_keys=True)
         if k in seen:
             continue
         seen.add(k)
         calls.append(c)
-    return {"overloads": overloads, "calls": calls, "family": family}
+    return {"overloads": overloads, "calls": calls, "family": family, "recv": recv}
 
 
 def gen_files():
@@ -844,7 +930,7 @@ def run(tier: str, replay: str | None = None):
     if replay:
         r = json.loads(Path(replay).read_text())
         c = r["input"]
-        cases = [{"overloads": c["overloads"], "calls": [c["call"]] if "call" in c else c["calls"], "family": "replay"}]
+        cases = [{"overloads": c["overloads"], "calls": [c["call"]] if "call" in c else c["calls"], "family": "replay", "recv": c.get("recv")}]
     else:
         cases = [dict(c, family="corpus") for c in load_corpus()]
         n_sets = 800 if tier == "quick" else 12000
@@ -887,6 +973,10 @@ def run(tier: str, replay: str | None = None):
                 terms.append(concrete_term(case, call, prim))
                 meta.append((ci, ki, "concrete"))
     model_ok = not any("build failed" in b for b in proof.broken)
+    if not model_ok:
+        # a pin / translation obligation / proof is broken: the search for a failing input goes on, and the model
+        # itself is still used when its own files build (only Proofs/ and Properties/ depend on the broken part)
+        model_ok, _ = lib.coq_make(["theories/Overload/Resolve.vo", "theories/Overload/Concrete.vo"], timeout=600)
     model = {}
     concrete = {}
     if model_ok and terms:
@@ -984,7 +1074,7 @@ def run(tier: str, replay: str | None = None):
                 continue
             tuples = call_tuples(call)
             if nun <= 1:
-                want = oracle_resolve(case["overloads"], call, tuples)
+                want = oracle_resolve(subst_overloads(case), call, tuples)
                 bump("oracle_verdict", want[0])
                 if len(samples) < 6 and want[0] != "Err" and nun == 1:
                     samples.append({"overloads": [f"({render_params(o['params'])}) -> {o['ret']}" for o in case["overloads"]], "call": call, "impl": obs, "oracle": want})
@@ -994,7 +1084,7 @@ def run(tier: str, replay: str | None = None):
                 elif nun == 1 and obs[0] == "Types":
                     # clause (b): the type contains the result of each member's own call
                     for t in tuples:
-                        w1 = oracle_resolve(case["overloads"], call, [t])
+                        w1 = oracle_resolve(subst_overloads(case), call, [t])
                         if w1[0] == "Types" and not set(w1[1]) <= set(obs[1]):
                             bad = (f"type does not contain the result of member tuple {t}", obs, w1)
                             break
@@ -1005,7 +1095,9 @@ def run(tier: str, replay: str | None = None):
                     # attribution: inside the guard of the finding AND the implementation behaves as the faithful model predicts
                     if nun == 1 and union_into_variadic(case, call) and m is not None and same(m, obs):
                         known.append(("C08-union-into-variadic", ci, ki))
-                    elif nun == 1 and union_into_variadic(case, call) and m is None and not model_ok:
+                    elif (nun == 1 and union_into_variadic(case, call) and m is None and not model_ok
+                          and obs[0] == "Err" and want[0] != "Err"):
+                        # the model could not be evaluated; the deviation has the direction the finding predicts
                         undecided += 1  # inside the finding's guard, but the model could not be built: the broken obligation is reported instead
                     else:
                         failing.append((ci, ki) + bad)
@@ -1013,15 +1105,15 @@ def run(tier: str, replay: str | None = None):
                 # several unions (outside the property's text): only accepted => every member tuple is accepted by some overload
                 if obs[0] != "Err":
                     for t in tuples:
-                        w1 = oracle_resolve(case["overloads"], call, [t])
+                        w1 = oracle_resolve(subst_overloads(case), call, [t])
                         if w1[0] == "Err":
                             failing.append((ci, ki, f"call accepted although no overload accepts member tuple {t}", obs, w1))
                             break
 
     def payload(ci, ki):
         case = cases[ci]
-        return {"overloads": case["overloads"], "call": case["calls"][ki],
-                "source": "\n".join(render_overloads("f", case["overloads"]) + render_call("f", "t", case["calls"][ki]))}
+        return {"overloads": case["overloads"], "call": case["calls"][ki], "recv": case.get("recv"),
+                "source": "\n".join(render_overloads("f", case["overloads"], case.get("recv")) + render_call("f", "t", case["calls"][ki], case.get("recv")))}
 
     findings = {f["id"]: f for f in lib.load_known_findings(PROP)["findings"]}
     for fid, ci, ki in known:
